@@ -61,7 +61,7 @@ class _Rec:
 
 class USeq(_Rec, cabc.Sequence):
     def __init__(self, items=()):
-        self._i = list(items)
+        self._i = items if type(items) is list or isinstance(items, list) else list(items)
 
     def __len__(self):
         return len(self._i)
@@ -80,7 +80,7 @@ class USeq(_Rec, cabc.Sequence):
 
 class UMutSeq(_Rec, cabc.MutableSequence):
     def __init__(self, items=()):
-        self._i = list(items)
+        self._i = items if type(items) is list or isinstance(items, list) else list(items)
 
     def __len__(self):
         return len(self._i)
@@ -111,7 +111,7 @@ class UMutSeq(_Rec, cabc.MutableSequence):
 
 class USet(_Rec, cabc.Set):
     def __init__(self, items=()):
-        self._i = list(dict.fromkeys(items))
+        self._i = items if isinstance(items, list) else list(dict.fromkeys(items))
 
     def __len__(self):
         return len(self._i)
@@ -132,7 +132,7 @@ class UColl(_Rec, cabc.Collection):
     """A Collection that is neither Sequence, Set nor Mapping."""
 
     def __init__(self, items=()):
-        self._i = list(items)
+        self._i = items if type(items) is list or isinstance(items, list) else list(items)
 
     def __len__(self):
         return len(self._i)
@@ -151,7 +151,7 @@ class UColl(_Rec, cabc.Collection):
 
 class UMap(_Rec, cabc.Mapping):
     def __init__(self, pairs=()):
-        self._d = dict(pairs)
+        self._d = pairs if isinstance(pairs, dict) else dict(pairs)
 
     def __len__(self):
         return len(self._d)
@@ -172,7 +172,7 @@ class UIterable:
     """Iterable that is *not* a Collection (no __len__/__contains__); counts iteration."""
 
     def __init__(self, items=()):
-        self._i = list(items)
+        self._i = items if type(items) is list or isinstance(items, list) else list(items)
         self.iters = 0
 
     def __iter__(self):
@@ -188,7 +188,7 @@ class UIterator:
     """One-shot iterator; counts __next__."""
 
     def __init__(self, items=()):
-        self._i = list(items)
+        self._i = items if type(items) is list or isinstance(items, list) else list(items)
         self._k = 0
         self.nexts = 0
 
@@ -207,11 +207,37 @@ class UIterator:
         return f'UIterator({self._i!r}@{self._k})'
 
 
+class USizedIterator:
+    """One-shot iterator that also knows its remaining length (like a DataLoader iterator):
+    __len__ + __iter__ (returning self) + __next__, but no __contains__ -- Sized and Iterator,
+    not a Collection."""
+
+    def __init__(self, items=()):
+        self._i = items if type(items) is list or isinstance(items, list) else list(items)
+        self._k = 0
+
+    def __len__(self):
+        return len(self._i) - self._k
+
+    def __iter__(self):
+        return self
+
+    def __next__(self):
+        READS.append(('USizedIterator', '__next__'))
+        if self._k >= len(self._i):
+            raise StopIteration
+        self._k += 1
+        return self._i[self._k - 1]
+
+    def __repr__(self):
+        return f'USizedIterator({self._i!r}@{self._k})'
+
+
 class UContainer:
     """Only __contains__."""
 
     def __init__(self, items=()):
-        self._i = list(items)
+        self._i = items if type(items) is list or isinstance(items, list) else list(items)
 
     def __contains__(self, x):
         READS.append(('UContainer', '__contains__'))
@@ -225,7 +251,7 @@ class UReversible:
     """__iter__ + __reversed__, not a Collection."""
 
     def __init__(self, items=()):
-        self._i = list(items)
+        self._i = items if type(items) is list or isinstance(items, list) else list(items)
 
     def __iter__(self):
         READS.append(('UReversible', '__iter__'))
